@@ -98,6 +98,12 @@ DropLoan(e) ==
     /\ out' = {x \in out : x.n # e.n}
     /\ UNCHANGED <<gcfg, sent, held, gviol, gwhy>>
 
+\* a panic / abort of the ports is never an allowed outcome
+Panic(e) ==
+    /\ gviol' = GLatch("NoPanic", TRUE)
+    /\ gwhy' = GBlame(TRUE, e)
+    /\ UNCHANGED <<gcfg, out, sent, held>>
+
 Release(e) ==
     /\ \E x \in held : x.n = e.n
     /\ held' = {x \in held : x.n # e.n}
@@ -110,6 +116,7 @@ LoanAligned  == gviol # "LoanAligned"
 LoanIntact   == gviol # "LoanIntact"
 RecvResolves == gviol # "RecvResolves"
 HeldIntact   == gviol # "HeldIntact"
+NoPanic      == gviol # "NoPanic"
 LoanDisjoint == \A x, y \in out : x # y => ~ROverlap(x, y)
 HeldDisjoint == \A x, y \in held : x.n # y.n => ~ROverlap(x, y)
 HeldAligned  == \A x \in held : x.addr % gcfg.palign = 0
